@@ -1014,3 +1014,89 @@ func (h *File) Readdirnames(n int) ([]string, error) {
 	}
 	return names, nil
 }
+
+// WalkDir is filepath.WalkDir over the simulated tree (the algorithm of the standard library on
+// top of Lstat and ReadDir; paths outside the simulated mounts reach the real file system through
+// those two functions).
+func WalkDir(root string, fn fs.WalkDirFunc) error {
+	info, err := Lstat(root)
+	if err != nil {
+		err = fn(root, nil, err)
+	} else {
+		err = walkDir(root, fs.FileInfoToDirEntry(info), fn)
+	}
+	if err == filepath.SkipDir || err == filepath.SkipAll {
+		return nil
+	}
+	return err
+}
+
+func walkDir(path string, d fs.DirEntry, fn fs.WalkDirFunc) error {
+	if err := fn(path, d, nil); err != nil || !d.IsDir() {
+		if err == filepath.SkipDir && d.IsDir() {
+			err = nil
+		}
+		return err
+	}
+	dirs, err := ReadDir(path)
+	if err != nil {
+		err = fn(path, d, err)
+		if err != nil {
+			if err == filepath.SkipDir && d.IsDir() {
+				err = nil
+			}
+			return err
+		}
+	}
+	for _, d1 := range dirs {
+		if err := walkDir(filepath.Join(path, d1.Name()), d1, fn); err != nil {
+			if err == filepath.SkipDir {
+				break
+			}
+			return err
+		}
+	}
+	return nil
+}
+
+// Walk is filepath.Walk over the simulated tree.
+func Walk(root string, fn filepath.WalkFunc) error {
+	info, err := Lstat(root)
+	if err != nil {
+		err = fn(root, nil, err)
+	} else {
+		err = walk(root, info, fn)
+	}
+	if err == filepath.SkipDir || err == filepath.SkipAll {
+		return nil
+	}
+	return err
+}
+
+func walk(path string, info fs.FileInfo, fn filepath.WalkFunc) error {
+	if !info.IsDir() {
+		return fn(path, info, nil)
+	}
+	entries, err := ReadDir(path)
+	err1 := fn(path, info, err)
+	if err != nil || err1 != nil {
+		return err1
+	}
+	for _, e := range entries {
+		filename := filepath.Join(path, e.Name())
+		fileInfo, err := Lstat(filename)
+		if err != nil {
+			if err := fn(filename, fileInfo, err); err != nil && err != filepath.SkipDir {
+				return err
+			}
+		} else {
+			err = walk(filename, fileInfo, fn)
+			if err != nil {
+				if !fileInfo.IsDir() || err != filepath.SkipDir {
+					return err
+				}
+			}
+		}
+	}
+	return nil
+}
